@@ -1,0 +1,36 @@
+// Verification hooks (see /verif/DESIGN.md §3). Compiled only with -tags verif.
+
+//go:build verif
+
+package sqlite
+
+import (
+	"fmt"
+	"os"
+	"strconv"
+	"strings"
+)
+
+var verifCounts = map[string]int{}
+
+// verifPoint is a named crash point. With VERIF_CRASH_AT=<name>:<n> the process
+// dies (no deferred code runs) the n-th time the point <name> is reached. With
+// VERIF_POINT_LOG=<file> every point reached is appended to the file.
+func verifPoint(name string) {
+	verifCounts[name]++
+	if f := os.Getenv("VERIF_POINT_LOG"); f != "" {
+		if w, err := os.OpenFile(f, os.O_APPEND|os.O_CREATE|os.O_WRONLY, 0o644); err == nil {
+			fmt.Fprintf(w, "%s:%d\n", name, verifCounts[name])
+			w.Close()
+		}
+	}
+	if at := os.Getenv("VERIF_CRASH_AT"); at != "" {
+		i := strings.LastIndex(at, ":")
+		if i > 0 && at[:i] == name {
+			if n, err := strconv.Atoi(at[i+1:]); err == nil && n == verifCounts[name] {
+				os.Exit(137)
+			}
+		}
+	}
+}
+
